@@ -109,6 +109,11 @@ func getCode(err error) string {
 		default:
 			return code
 		}
+		if err == nil {
+			// the chain ended: reflect.ValueOf(nil) is the zero Value and
+			// MethodByName on it panics.
+			return code
+		}
 	}
 	return code
 }
